@@ -93,6 +93,23 @@ static std::vector<Edit> random_mutation(vh::Rng& r, const Bytes& p, const Layou
             const Field& g = L.fields[r.below(L.fields.size())];
             if (g.off >= f.off + (size_t)f.width) { Bytes i2; put_le(i2, boundary_value(r, get_le(p, g.off, g.width), g.width, p), g.width); es.push_back({g.off, (size_t)g.width, i2}); kind += std::string("+") + g.name; }
         }
+    } else if (pick < 52 && L.chunks.size() > 2) {
+        // structure-aware pair: a chunk moved in front of an earlier one AND one of its sub-header fields / handles set to a
+        // small or boundary value (a reader whose range checks lean on "what has been read so far" is only exposed when
+        // the entities a chunk refers to arrive later)
+        size_t i = 1 + r.below(L.chunks.size() - 1); const ChunkInfo& c = L.chunks[i];
+        size_t j = r.below(i); const ChunkInfo& d = L.chunks[j];
+        Bytes cb(p.begin() + c.off, p.begin() + c.off + c.len);
+        std::vector<const Field*> in; for (auto& f : L.fields) if (f.off >= c.off + 16 && f.off + (size_t)f.width <= c.off + c.len) in.push_back(&f);
+        kind = "chunk-move";
+        if (!in.empty()) {
+            const Field& f = *in[r.below(in.size())];
+            uint64_t lim = 2 * std::max<uint64_t>(get_le(p, 16 + 8 * r.below(4), 8), 2) + 2;
+            uint64_t v = r.chance(2, 3) ? r.below(lim) : boundary_value(r, get_le(p, f.off, f.width), f.width, p);
+            Bytes ins; put_le(ins, v, f.width); std::copy(ins.begin(), ins.end(), cb.begin() + (f.off - c.off));
+            kind += std::string("+") + f.name;
+        }
+        es.push_back({d.off, 0, cb}); es.push_back({c.off, c.len, Bytes()});
     } else if (pick < 55 && n) { kind = "flip"; size_t o = r.below(n); es.push_back({o, 1, Bytes{(uint8_t)(p[o] ^ (1u << r.below(8)))}}); }
     else if (pick < 62 && n) { kind = "setbyte"; size_t o = r.below(n); es.push_back({o, 1, Bytes{(uint8_t)r.next()}}); }
     else if (pick < 69) { kind = "insert"; es.push_back({r.below(n + 1), 0, rnd_bytes(1 + r.below(r.chance(1,2) ? 4 : 24))}); }
